@@ -21,6 +21,7 @@ type Case struct {
 	Fam   string       `json:"fam"`
 	Procs []int        `json:"procs"`
 	File  pbfrec.AFile `json:"file"`
+	RLE   bool         `json:"rle"` // record the elements run-length encoded (pbfrec.Compress): large blocks
 }
 
 type Run struct {
@@ -49,6 +50,7 @@ func main() {
 	one := func(i int, line []byte) interface{} {
 		var c Case
 		vio.Must(json.Unmarshal(line, &c), "case")
+		vio.Must(c.File.Expand(), "expand run-length groups")
 		rec := Rec{Case: line, Runs: []Run{}}
 		for _, pi := range profilesOf(line) {
 			p := pbfrec.GetProfile(pi, *seed)
@@ -69,6 +71,13 @@ func main() {
 					run.Header, run.HErr, run.Err = p.RecHeader(r.Header), pbfrec.ErrStr(r.HErr), pbfrec.ErrStr(r.Err)
 					for _, o := range r.Objects {
 						run.Elems = append(run.Elems, p.RecObject(o))
+					}
+					if c.RLE {
+						runs := pbfrec.Compress(run.Elems)
+						run.Elems = make([]interface{}, len(runs))
+						for k := range runs {
+							run.Elems[k] = runs[k]
+						}
 					}
 				}
 				rec.Runs = append(rec.Runs, run)
